@@ -83,7 +83,8 @@ def describe(tr, line, clause):
         r = o["k"] if o["k"] != "instr" else "%s len %d bytes %s" % (o["mn"], o["len"], bytes(x & 0xFF for x in o["bytes"]).hex())
         if o["k"] == "raised":
             r += ":%s@%s" % (o["exc"], o["at"])
-        return "d(%s)=%s%s" % (bytes(e["in"]).hex(), r, " [__i set]" if e["pend"] else "")
+        return "%sd(%s)=%s%s" % ("[%s] " % e["mode"] if "mode" in e else "", bytes(e["in"]).hex(), r,
+                               " [__i set]" if e["pend"] else "")
     e = tr["ev"][line - 1]
     b = e["base"]
     fresh = b["k"] if b["k"] != "instr" else "%s len %d bytes %s" % (b["mn"], b["len"], bytes(x & 0xFF for x in b["bytes"]).hex())
@@ -115,8 +116,12 @@ def replay(ctx):
     inputs = [bytes(e["in"]).hex() for e in tr["ev"]]
     fresh = mp.get_context("fork").Pool(1, maxtasksperchild=1)
     try:
-        base = fresh.apply(c11.baseline_task, ((isa, mode, inputs),))["base"]
-        new = fresh.apply(c11.replay_history, ((isa, mode, inputs, [e.get("cls", "-") for e in tr["ev"]], base),))
+        modes = [e["mode"] for e in tr["ev"]] if all("mode" in e for e in tr["ev"]) else None
+        if modes:
+            base = [fresh.apply(c11.baseline_task, ((isa, m, [hx]),))["base"][0] for hx, m in zip(inputs, modes)]
+        else:
+            base = fresh.apply(c11.baseline_task, ((isa, mode, inputs),))["base"]
+        new = fresh.apply(c11.replay_history, ((isa, mode, inputs, [e.get("cls", "-") for e in tr["ev"]], base, modes),))
     finally:
         fresh.close()
         fresh.join()
@@ -140,7 +145,8 @@ def run(ctx):
     ctx.rule = ("one case = one call history on ONE disassembler object: (G) every history of L calls over the "
                 "input classes {valid, invalid, truncated, rejecting, raising, prefix_only, prefix_truncated, "
                 "prefix_invalid, prefix_valid, prefix_raising} generated by TLC and concretised per ISA/mode, "
-                "(T) random sequences over the ISA's input pool; every outcome is compared by TLC with the "
+                "(T) random sequences over the ISA's input pool, (S) every path of 2 and 3 decode modes of the ISA (+ random walks) "
+                "with the mode globals switched between calls; every outcome is compared by TLC with the "
                 "outcome of the same input in a fresh process; non-trivial = the history contains a prefix, "
                 "truncated, rejecting or raising call followed by at least one more call; distinct = distinct "
                 "(isa/mode, sequence of classes)")
@@ -148,6 +154,9 @@ def run(ctx):
                "and never called the decoder")
     ctx.assume("each history runs on a shallow copy of the never-used module-level disassembler object (same "
                "specification tree, own pending-prefix variable)")
+    ctx.assume("decode modes are the decode-mode globals the ISA table lists (armv7: ARM/Thumb x little/big-endian fetch, "
+               "armv8: little/big-endian fetch, x86: 32/16-bit); mode-switch histories (source S) set them between calls "
+               "on one object, the fresh-process baseline of an input is taken under the same mode")
     ctx.assume("outcomes are compared through harness.dec_common.outcome (bytes, length, mnemonic, fingerprint of "
                "the instruction's instance dictionary; misc entries holding None count as absent)")
     # --- M ----------------------------------------------------------------------------------------------
@@ -164,7 +173,7 @@ def run(ctx):
     t0 = time.time()
     per_class = 4 if quick else 10
     nother = 20 if quick else 80
-    modes = D.isa_modes()
+    modes = D.isa_modes(switch=True)      # incl. the big-endian fetch modes used by the mode-switch histories
     with mp.get_context("fork").Pool(tlc.NCPU, maxtasksperchild=1) as pool:     # one ISA per process
         pools = pool.map(c11.pool_task, [(i, m, ctx.seed, per_class, nother) for i, m in modes], chunksize=1)
     fresh = mp.get_context("fork").Pool(tlc.NCPU, maxtasksperchild=1)
@@ -197,7 +206,18 @@ def run(ctx):
             step = 2500
             for lo in range(0, len(hs), step):
                 jobs.append((p["isa"], p["mode"], p["pool"], hs[lo:lo + step], nseq if lo == 0 else 0, seqlen, ctx.seed))
-        outs = fresh.map(c11.replay_task, jobs, chunksize=1)
+        # mode-switch histories: one object walked through the decode modes of its ISA
+        switch_jobs = []
+        names = []
+        for p in pools:
+            if p["isa"] not in names:
+                names.append(p["isa"])
+        for name in names:
+            sm = D.switchable_modes(name)
+            if sm:
+                switch_jobs.append((name, dict((p["mode"], p["pool"]) for p in pools if p["isa"] == name and p["mode"] in sm),
+                                    ctx.seed, 20 if quick else 200))
+        outs = fresh.map(c11.replay_task, jobs, chunksize=1) + fresh.map(c11.switch_task, switch_jobs, chunksize=1)
     finally:
         fresh.close()
         fresh.join()
@@ -222,10 +242,12 @@ def run(ctx):
     for tr in traces:
         ncalls += len(tr["ev"])
         cl = tuple(e["cls"] for e in tr["ev"])
-        nontrivial = any(c not in ("valid", "invalid", "other") for c in cl[:-1])
+        if tr["src"] == "S":
+            cl = ("switch",) + tuple(tr["path"])
+        nontrivial = tr["src"] == "S" or any(c not in ("valid", "invalid", "other") for c in cl[:-1])
         ctx.case(key=(tr["m"], cl) if nontrivial else None)
         ctx.trace()
-        st = per.setdefault(tr["m"], {"G": 0, "T": 0, "calls": 0})
+        st = per.setdefault(tr["m"], {"G": 0, "T": 0, "S": 0, "calls": 0})
         st[tr["src"]] += 1
         st["calls"] += len(tr["ev"])
     report(ctx, traces, verdicts)
